@@ -630,8 +630,9 @@ def evaluate(ctx, case, obs, obs_prep, driver_answers):
             probs = compare_model(case, obs, mo)
             if not probs:
                 ok_variants.append(vkin)
-        if not ok_variants:
-            mo = driver_answers.get("asIs") or next(iter(driver_answers.values()))
+        want_variant = "repaired" if eng == "ase" else "asIs"   # Vel.codeVariant: /repo since commit 1dd0318
+        if want_variant not in ok_variants:
+            mo = driver_answers.get(want_variant) or next(iter(driver_answers.values()))
             ctx.disagree({"fn": f"{eng}.modify_velocities", "case": case}, {k: obs[k] for k in ("dek", "kin_new", "beta")},
                          compare_model(case, obs, mo))
         case["_variants_ok"] = ok_variants
@@ -714,7 +715,7 @@ def do_case(ctx, mods, work, case, with_prepare):
         l = obs["log"][0]
         if eng == "ase":
             sig = ase_sigp(case)
-            vr = "asIs" if l["stream"] == "global" else "repaired"
+            vr = "repaired"          # Vel.codeVariant; a global draw shows up as a stream mismatch
             lines = [model_line(case, sig, vk, vr, id_tokens(case)) for vk in ("asIs", "repaired")]
             out = ctx.driver(lines)
             answers = {"asIs": parse_model(out[0]), "repaired": parse_model(out[1])}
@@ -796,6 +797,293 @@ def shoot_fields(ctx, obs_prep, case):
         ctx.disagree({"fn": "prepareShootingPoint fields", "case": case}, rebound, want)
 
 
+# ------------------------------------------------------------------ C07, the half that lives in the engines
+class LoggingGen:
+    """a real numpy Generator (seeded) behind a proxy that logs every method call and its result:
+    this *is* the job's engine stream in the C07 runs"""
+
+    def __init__(self, seed):
+        object.__setattr__(self, "_g", np.random.default_rng(seed))
+        object.__setattr__(self, "log", [])
+
+    def __getattr__(self, name):
+        attr = getattr(self._g, name)
+        if not callable(attr):
+            return attr
+
+        def call(*a, **k):
+            r = attr(*a, **k)
+            self.log.append({"method": name, "result": r if np.ndim(r) == 0 else None,
+                             "shape": None if np.ndim(r) == 0 else tuple(np.shape(r))})
+            return r
+        return call
+
+
+_NP_GLOBAL = ("random", "rand", "randn", "randint", "random_sample", "ranf", "sample", "random_integers",
+              "normal", "standard_normal", "uniform", "choice", "shuffle", "permutation", "bytes", "seed",
+              "exponential", "gamma", "beta", "binomial", "poisson", "multivariate_normal", "lognormal",
+              "standard_exponential", "standard_gamma", "standard_cauchy", "standard_t", "triangular", "laplace")
+_PY_GLOBAL = ("random", "randint", "randrange", "uniform", "gauss", "normalvariate", "choice", "choices", "shuffle",
+              "sample", "getrandbits", "seed", "betavariate", "expovariate", "triangular", "randbytes")
+
+
+class Tripwire:
+    """logs every call of numpy's GLOBAL random functions, of the `random` module's functions, and every
+    construction of a fresh generator (`default_rng`, also the name bound inside turtlemd.integrators) —
+    the calls go through unchanged"""
+
+    def __init__(self):
+        self.global_calls = []
+        self.new_generators = []
+        self._saved = []
+
+    def _wrap(self, mod, name, kind):
+        import random as _r
+        import traceback
+        orig = getattr(mod, name)
+
+        def w(*a, **k):
+            fr = [f for f in traceback.extract_stack(limit=8)[:-1] if "harness/props" not in f.filename]
+            where = f"{fr[-1].filename}:{fr[-1].lineno}" if fr else "?"
+            if kind == "gen":
+                seed = a[0] if a else k.get("seed")
+                self.new_generators.append({"fn": name, "seed": seed, "where": where})
+            else:
+                self.global_calls.append({"fn": f"{kind}.{name}", "where": where})
+            return orig(*a, **k)
+        self._saved.append((mod, name, orig))
+        setattr(mod, name, w)
+        _ = _r
+
+    def __enter__(self):
+        import random as _r
+        for n in _NP_GLOBAL:
+            if hasattr(np.random, n):
+                self._wrap(np.random, n, "numpy.random")
+        for n in _PY_GLOBAL:
+            if hasattr(_r, n):
+                self._wrap(_r, n, "random")
+        self._wrap(np.random, "default_rng", "gen")
+        try:
+            import turtlemd.integrators as ti
+            if hasattr(ti, "default_rng"):
+                self._wrap(ti, "default_rng", "gen")
+        except Exception:  # noqa: BLE001
+            pass
+        return self
+
+    def __exit__(self, *a):
+        for mod, name, orig in reversed(self._saved):
+            setattr(mod, name, orig)
+
+
+def _c07_engine(mods, work, eng, T, n, rng, integrator=None):
+    """build one engine for the C07 runs (ASE / TurtleMD with the requested integrator)"""
+    import contextlib
+    import io
+    import tomli
+    case = gen_case(rng, eng, n, T, False, "plain")
+    if integrator is None:
+        return build_engine(mods, work, case), case
+    with contextlib.redirect_stdout(io.StringIO()):
+        if eng == "ase":
+            cfg = tomli.loads((EX / "ase/H2/infretis0.toml").read_text())
+            cfg["engine"]["temperature"] = T
+            cfg["engine"]["integrator"] = integrator
+            cfg["engine"]["calculator_settings"]["module"] = str((EX / "ase/H2/H2-calc.py").resolve())
+            e = mods["create_engine"](cfg)
+        else:
+            cfg = tomli.loads((EX / "turtlemd/H2/infretis.toml").read_text())
+            cfg["engine"]["temperature"] = T
+            cfg["engine"]["boltzmann"] = TURTLE_KB
+            cfg["engine"]["particles"] = {"mass": list(case["masses"]), "name": ["H"] * n,
+                                          "pos": [[0.3 * i, 0.0, 0.0] for i in range(n)]}
+            if integrator == "velocityverlet":
+                cfg["engine"]["integrator"] = {"class": "VelocityVerlet", "settings": {}}
+            elif integrator == "langevinoverdamped":
+                cfg["engine"]["integrator"] = {"class": "LangevinOverdamped",
+                                               "settings": {"gamma": 10, "beta": 1.0 / (TURTLE_KB * T)}}
+            else:
+                cfg["engine"]["integrator"] = {"class": "LangevinInertia",
+                                               "settings": {"gamma": 10, "beta": 1.0 / (TURTLE_KB * T)}}
+            e = mods["create_engine"](cfg)
+        return _finish_engine(e, work, eng), case
+
+
+def run_c07_engine_streams(ctx):
+    """C07, engine half: every random number drawn in-process for a move — velocity draws, seeds handed
+    to stochastic integrators — comes from the job's engine stream (`engine.rgen`), in every engine class.
+
+    For each engine class: `modify_velocities`, and where the engine integrates in-process or hands a seed to
+    the MD program (ASE VelocityVerlet/Langevin, TurtleMD VelocityVerlet/LangevinInertia/LangevinOverdamped,
+    LAMMPS `infretis_seed`) a short `propagate`, with a logging generator as `engine.rgen` and a tripwire on
+    numpy's global random functions, the `random` module and fresh `default_rng` constructions.
+    Any global draw, any generator seeded by something that `engine.rgen` did not return, or a seed in the
+    LAMMPS input that `engine.rgen` did not return is `C07:<engine>:draw-outside-job-stream`.
+    Called from harness/props/c07.py (failures are ctx.fail there) and from C16's own run (failures are
+    recorded in the histogram under c07_ keys and in the evidence, not raised)."""
+    mods = _imports()
+    from infretis.classes.path import Path as InfPath
+    raise_fail = ctx.prop == "C07"
+    work = Path(tempfile.mkdtemp(prefix="c07eng-", dir="/var/tmp"))
+    cwd = os.getcwd()
+    results = []
+    plan = [("gromacs", None, False), ("cp2k", None, False), ("lammps", None, True),
+            ("ase", "velocityverlet", True), ("ase", "langevin", True),
+            ("turtlemd", "velocityverlet", True), ("turtlemd", "langevininertia", True),
+            ("turtlemd", "langevinoverdamped", True)]
+    temps = (300,) if ctx.quick else (300, 77.5, 1200)
+
+    def report(eng, sig_detail, what, replay):
+        sig = f"C07:{eng}:draw-outside-job-stream"
+        ctx.hit(f"c07_fail:{sig}")
+        if raise_fail:
+            ctx.fail(sig, what, replay)
+        else:
+            ctx.extra.setdefault("c07_engine_stream_failures", []).append({"signature": sig, "what": what, **replay})
+
+    class _Ord:
+        def calculate(self, system):
+            return [0.5]
+
+    try:
+        os.chdir(work)
+        for (eng, integ, do_prop) in plan:
+            for T in temps:
+                for zm in (False, True):
+                    label = eng + ("" if integ is None else f"/{integ}")
+                    try:
+                        e, case = _c07_engine(mods, work, eng, T, 3, ctx.rng, integ)
+                    except Exception as ex:  # noqa: BLE001
+                        ctx.hit(f"c07_build_error:{label}:{err_kind(ex)}")
+                        continue
+                    src = work / f"src_{eng}.{EXT[eng]}"
+                    write_source(case, src)
+                    seed = ctx.rng.randrange(1 << 30)
+                    gen = LoggingGen(seed)
+                    e.rgen = gen
+                    e.order_function = _Ord()
+                    rep = {"engine": eng, "integrator": integ, "T": T, "zero_momentum": zm, "rgen_seed": seed,
+                           "case": {k: v for k, v in case.items() if not k.startswith("_")}}
+                    # ---- (A) velocity regeneration
+                    s = mods["System"]()
+                    s.set_pos((str(src), 0 if eng == "gromacs" else case["idx"]))
+                    s.ekin = 1.0
+                    s.order = [0.5]
+                    with Tripwire() as tw:
+                        try:
+                            e.modify_velocities(s, {"zero_momentum": zm})
+                            err = None
+                        except Exception as ex:  # noqa: BLE001
+                            err = err_kind(ex) + ":" + str(ex)[:120]
+                    ctx.count(1, c07_engine=label)
+                    ndraw = len(gen.log)
+                    ctx.hit(f"c07_modify_velocities:{label}:draws_on_rgen={ndraw}")
+                    if err:
+                        ctx.hit(f"c07_modify_error:{label}:{err.split(':')[1]}")
+                    for g in tw.global_calls:
+                        report(eng, "global", f"{label}.modify_velocities called {g['fn']} at {g['where']} "
+                               "(global state), not engine.rgen", dict(rep, phase="modify_velocities", call=g))
+                    for g in tw.new_generators:
+                        report(eng, "newgen", f"{label}.modify_velocities built a fresh generator {g['fn']}(seed={g['seed']!r}) "
+                               f"at {g['where']}", dict(rep, phase="modify_velocities", call={k: str(v) for k, v in g.items()}))
+                    if not err and ndraw == 0:
+                        report(eng, "nodraw", f"{label}.modify_velocities made no draw on engine.rgen although the "
+                               "velocities changed", dict(rep, phase="modify_velocities"))
+                    results.append({"engine": label, "phase": "modify_velocities", "T": T, "zm": zm, "rgen_draws": ndraw,
+                                    "global_calls": len(tw.global_calls), "fresh_generators": len(tw.new_generators)})
+                    if not do_prop or err:
+                        continue
+                    # ---- (B) a short propagation from the regenerated point
+                    gen.log.clear()
+                    seeds_given = []
+                    lmp_seen = {}
+                    undo = []
+                    if eng == "turtlemd":
+                        orig_int = e.integrator
+
+                        def rec_int(*a, _o=orig_int, **k):
+                            seeds_given.append(k.get("seed", "absent"))
+                            return _o(*a, **k)
+                        e.integrator = rec_int
+                    if eng == "lammps":
+                        import infretis.classes.engines.lammps as lm
+                        orig_w = lm.write_for_run
+
+                        def rec_w(infile, outfile, input_settings=None, _o=orig_w):
+                            lmp_seen["seed"] = (input_settings or {}).get("infretis_seed")
+                            r = _o(infile, outfile, input_settings)
+                            lmp_seen["text"] = Path(outfile).read_text()
+                            return r
+                        lm.write_for_run = rec_w
+                        undo.append(lambda: setattr(lm, "write_for_run", orig_w))
+                        e.lmp = ["false"]
+                        e.sleep = 0.001
+                    path = InfPath(maxlen=4)
+                    ens_set = {"interfaces": [0.0, 0.25, 1.0], "ens_name": "c07", "tis_set": {}}
+                    perr = None
+                    import warnings
+                    with Tripwire() as tw2, warnings.catch_warnings():
+                        warnings.simplefilter("ignore")
+                        try:
+                            e.propagate(path, ens_set, s, reverse=False)
+                        except Exception as ex:  # noqa: BLE001
+                            perr = err_kind(ex) + ":" + str(ex)[:160]
+                    for u in undo:
+                        u()
+                    ctx.count(1, c07_engine=label + ":propagate")
+                    ints = [l["result"] for l in gen.log if l["method"] == "integers"]
+                    ctx.hit(f"c07_propagate:{label}:rgen_calls={sorted(set(l['method'] for l in gen.log))}")
+                    if perr and eng != "lammps":
+                        ctx.hit(f"c07_propagate_error:{label}:{perr[:80]}")
+                    rep2 = dict(rep, phase="propagate", rgen_integers=[int(x) for x in ints])
+                    for g in tw2.global_calls:
+                        report(eng, "global", f"{label}.propagate called {g['fn']} at {g['where']} (global state), "
+                               "not engine.rgen", dict(rep2, call=g))
+                    for g in tw2.new_generators:
+                        ok = g["seed"] is not None and any(np.ndim(g["seed"]) == 0 and int(g["seed"]) == int(x) for x in ints)
+                        if not ok:
+                            report(eng, "newgen", f"{label}.propagate built {g['fn']}(seed={g['seed']!r}) at {g['where']}: "
+                                   f"the seed is not a value drawn from engine.rgen {[int(x) for x in ints]}",
+                                   dict(rep2, call={k: str(v) for k, v in g.items()}))
+                    if eng == "turtlemd":
+                        for sd in seeds_given:
+                            if sd == "absent" or not any(int(sd) == int(x) for x in ints):
+                                report(eng, "seed", f"{label}: integrator seed {sd!r} is not a value drawn from engine.rgen "
+                                       f"{[int(x) for x in ints]}", dict(rep2, seed=str(sd)))
+                        if not seeds_given and not perr:
+                            report(eng, "seed", f"{label}: the integrator was built without going through engine.integrator",
+                                   rep2)
+                    if eng == "lammps":
+                        sd = lmp_seen.get("seed")
+                        line = [l for l in lmp_seen.get("text", "").split("\n") if l.split()[:3] == ["variable", "seed", "index"]]
+                        if sd is None or not any(int(sd) == int(x) for x in ints):
+                            report(eng, "seed", f"lammps: infretis_seed {sd!r} is not a value drawn from engine.rgen "
+                                   f"{[int(x) for x in ints]}", dict(rep2, seed=str(sd)))
+                        elif not line or line[0].split()[3] != str(int(sd)):
+                            report(eng, "seed", f"lammps: run.inp carries {line} instead of the drawn seed {sd}",
+                                   dict(rep2, seed=str(sd), line=line))
+                    if eng == "ase" and integ == "langevin" and not perr:
+                        if not any(l["method"] == "standard_normal" for l in gen.log):
+                            report(eng, "nodraw", "ase/langevin: the thermostat noise was not drawn from engine.rgen",
+                                   rep2)
+                    results.append({"engine": label, "phase": "propagate", "T": T, "zm": zm,
+                                    "rgen_calls": len(gen.log), "rgen_integers": [int(x) for x in ints],
+                                    "seeds_handed_on": [str(x) for x in seeds_given] + ([str(lmp_seen.get("seed"))] if eng == "lammps" else []),
+                                    "global_calls": len(tw2.global_calls), "fresh_generators": len(tw2.new_generators),
+                                    "path_len": path.length, "error": perr})
+        ctx.extra["c07_engine_streams"] = results if len(results) <= 40 else results[:40]
+        ctx.assumptions += [
+            "C07 engine half: GROMACS's own gen_vel (gen_seed = -1, chosen by gmx) and seeds inside user-supplied MD "
+            "templates (ld_seed, cp2k thermostat seeds) are outside the property by its own words; CP2K/GROMACS "
+            "propagation is an external program without in-process draws",
+        ]
+    finally:
+        os.chdir(cwd)
+        shutil.rmtree(work, ignore_errors=True)
+    return results
+
+
 def run(ctx):
     mods = _imports()
     work = Path(tempfile.mkdtemp(prefix="c16-", dir="/var/tmp"))
@@ -855,6 +1143,8 @@ def run(ctx):
                 ctx.count(1, branch="reproducibility")
         if not ctx.quick:
             moment_check(ctx, mods, work)
+        os.chdir(cwd)
+        run_c07_engine_streams(ctx)
         ctx.exhaustive = False
         ctx.assumptions += [
             "sqrt and the Gaussian sampler are outside the model: numpy's normal(loc, scale, size) is taken to return "
